@@ -116,3 +116,138 @@ pub fn repeat_history(docs: &[String], in_thread: usize, fresh_threads: usize) -
     }
     outs
 }
+
+// ---------------------------------------------------------------------------------------------
+// configurable readers (C07, C08, C11)
+// ---------------------------------------------------------------------------------------------
+
+#[derive(Clone, Copy, Debug, PartialEq, Eq, Default)]
+pub struct RCfg {
+    pub trim_text: bool,
+    pub expand_empty_elements: bool,
+    /// `None` = library default (true)
+    pub check_end_names: Option<bool>,
+    pub allow_unmatched_ends: bool,
+    pub check_comments: bool,
+}
+
+impl RCfg {
+    pub fn apply<R>(&self, r: &mut Reader<R>) {
+        let c = r.config_mut();
+        c.trim_text(self.trim_text);
+        c.expand_empty_elements = self.expand_empty_elements;
+        if let Some(b) = self.check_end_names {
+            c.check_end_names = b;
+        }
+        c.allow_unmatched_ends = self.allow_unmatched_ends;
+        c.check_comments = self.check_comments;
+    }
+}
+
+pub fn parse_reader<R: std::io::BufRead>(r: R, cfg: &RCfg) -> Result<Element<String>, ParserError> {
+    let mut reader = Reader::from_reader(r);
+    cfg.apply(&mut reader);
+    into_struct(&mut reader)
+}
+
+pub fn extend_reader<R: std::io::BufRead>(
+    root: Element<String>,
+    r: R,
+    cfg: &RCfg,
+) -> Result<Element<String>, ParserError> {
+    let mut reader = Reader::from_reader(r);
+    cfg.apply(&mut reader);
+    extend_struct(&mut reader, root)
+}
+
+/// all renderings of an element (both presets, both sort options), separated by \u{1}
+pub fn render_all(e: &Element<String>) -> String {
+    let mut o = String::new();
+    for preset in [Preset::QuickXml, Preset::SerdeXmlRs] {
+        for sorted in [false, true] {
+            o.push_str(&render(e, preset, sorted));
+            o.push('\u{1}');
+        }
+    }
+    o
+}
+
+/// a `BufRead` whose behaviour at every `fill_buf` is decided by a chooser:
+/// 0 = everything that is left, 1..=4 = the next 1 / 2 / 3 / 7 bytes, 5 = `Interrupted` (then data),
+/// 6 = a hard I/O error (only offered when `hard_errors`)
+pub struct ChoiceReader<'a> {
+    pub data: &'a [u8],
+    pub pos: usize,
+    pub chooser: crate::choice::Chooser,
+    pub hard_errors: bool,
+    window: usize,
+    just_interrupted: bool,
+    pub failed: bool,
+}
+
+impl<'a> ChoiceReader<'a> {
+    pub fn new(data: &'a [u8], chooser: crate::choice::Chooser, hard_errors: bool) -> Self {
+        ChoiceReader {
+            data,
+            pos: 0,
+            chooser,
+            hard_errors,
+            window: 0,
+            just_interrupted: false,
+            failed: false,
+        }
+    }
+}
+
+impl<'a> std::io::Read for ChoiceReader<'a> {
+    fn read(&mut self, buf: &mut [u8]) -> std::io::Result<usize> {
+        use std::io::BufRead;
+        let n = {
+            let avail = self.fill_buf()?;
+            let n = avail.len().min(buf.len());
+            buf[..n].copy_from_slice(&avail[..n]);
+            n
+        };
+        self.consume(n);
+        Ok(n)
+    }
+}
+
+impl<'a> std::io::BufRead for ChoiceReader<'a> {
+    fn fill_buf(&mut self) -> std::io::Result<&[u8]> {
+        let left = self.data.len() - self.pos;
+        if self.window == 0 && left > 0 {
+            let arity = if self.just_interrupted {
+                5
+            } else if self.hard_errors {
+                7
+            } else {
+                6
+            };
+            let c = self.chooser.choose(arity);
+            self.just_interrupted = false;
+            match c {
+                0 => self.window = left,
+                1 => self.window = 1,
+                2 => self.window = 2.min(left),
+                3 => self.window = 3.min(left),
+                4 => self.window = 7.min(left),
+                5 => {
+                    self.just_interrupted = true;
+                    return Err(std::io::Error::new(std::io::ErrorKind::Interrupted, "interrupted"));
+                }
+                _ => {
+                    self.failed = true;
+                    return Err(std::io::Error::new(std::io::ErrorKind::Other, "injected I/O error"));
+                }
+            }
+        }
+        Ok(&self.data[self.pos..self.pos + self.window.min(left)])
+    }
+
+    fn consume(&mut self, amt: usize) {
+        let amt = amt.min(self.window);
+        self.pos += amt;
+        self.window -= amt;
+    }
+}
